@@ -23,8 +23,9 @@ import re
 
 CONSUMER = re.compile(r'^\w+::<(.+) as core::iter::Iterator>::(for_each|try_for_each|all|any|fold|try_fold|find|find_map|position)::<')
 ADAPTOR = re.compile(r'^\w+::<(.+) as core::iter::Iterator>::(map|filter|filter_map)::<')
-_AD_TY = r'core::iter::(?:adapters::\w+::)?(?:Map|Filter|FilterMap|Zip|Chain|Enumerate|Copied|Cloned|Inspect|TakeWhile|MapWhile)<.+>'
+_AD_TY = r'(?:core::iter::(?:adapters::\w+::|sources::\w+::)?(?:Map|Filter|FilterMap|Zip|Chain|Enumerate|Copied|Cloned|Inspect|TakeWhile|MapWhile|Flatten|Once)|core::array::IntoIter|core::option::IntoIter|core::slice::Iter)<.+>'
 STRUCT_AD = re.compile(r'^\w+::<(.+) as core::iter::Iterator>::(map|filter|filter_map|zip|chain|inspect|take_while|map_while)::<')
+COLLECT_UNIT = re.compile(r'^\w+::<(.+) as core::iter::Iterator>::collect::<(core::result::Result<\(\), .+>)>$')
 SIMPLE_AD = re.compile(r'^\w+::<(.+) as core::iter::Iterator>::(copied|cloned|fuse|enumerate)(::<.*>)?$')
 ANY_INTO_ITER = re.compile(r'^\w+::<(.+) as core::iter::IntoIterator>::into_iter$')
 ITER_TY = re.compile(r'^(core::iter::|soroban_sdk::iter::|soroban_sdk::vec::\w*Iter|core::slice::Iter|core::option::(IntoIter|Iter)<|core::array::IntoIter<|core::ops::Range<)')
@@ -201,14 +202,17 @@ class Rewriter:
         insts, body = self.insts, self.body
         cbody = insts[ckey]
         inline_body(insts, cbody, self.done)
-        closure_local = _closure_root(body, closure_local)
-        crv = _single_assign(body, closure_local)
-        if crv is None or crv['r'] != 'agg' or crv.get('kind') != 'closure':
-            raise Bail('closure value is not built in this body')
-        caps = crv['ops']
-        env_is_ref = cbody['locals'][1].startswith('&')
+        plain = closure_local is None          # an ordinary function: local 1 is just its first parameter
+        crv = None
+        if not plain:
+            closure_local = _closure_root(body, closure_local)
+            crv = _single_assign(body, closure_local)
+            if crv is None or crv['r'] != 'agg' or crv.get('kind') != 'closure':
+                raise Bail('closure value is not built in this body')
+        caps = crv['ops'] if crv else []
+        env_is_ref = (not plain) and cbody['locals'][1].startswith('&')
         cache = body.setdefault('_closure_caps', {})
-        cap_place = cache.get(closure_local)
+        cap_place = cache.get(closure_local) if not plain else {}
         if cap_place is None:
             cap_place = {}  # capture index -> ('ref', place, mut) | ('val', local)
             inits = []
@@ -243,7 +247,7 @@ class Rewriter:
         body['promoted'].extend(copy.deepcopy(cbody['promoted']))
         def is_env_field(pl):
             """(capture index, remaining projection) if the place goes through the closure environment"""
-            if pl['l'] != 1:
+            if plain or pl['l'] != 1:
                 return None
             p = pl.get('p', [])
             if env_is_ref:
@@ -281,7 +285,7 @@ class Rewriter:
                 if rest and rest[0] == '*':
                     return onto(cp[1], rest[1:])
                 raise Bail('by-reference capture used as a value')
-            if pl['l'] == 1:
+            if pl['l'] == 1 and not plain:
                 raise Bail('closure environment used as a whole')
             if pl['l'] in alias and p and p[0] == '*':
                 return onto(cap_place[alias[pl['l']]][1], p[1:])
@@ -330,7 +334,7 @@ class Rewriter:
                 if s['s'] == 'assign':
                     st.append({'s': 'assign', 'pl': map_place(s['pl']), 'rv': map_rv(s['rv']), 'at': s.get('at')})
                 elif s['s'] == 'dead':
-                    if s['l'] == 1:
+                    if s['l'] == 1 and not plain:
                         continue
                     st.append({'s': 'dead', 'l': L0 + s['l']})
                 else:
@@ -340,13 +344,14 @@ class Rewriter:
                     st.append(s2)
             ot = ob['term']
             tt = dict(ot)
+            tt.pop('_noinline', None)      # what could not be rewritten in the callee alone may be rewritable with the caller's values in sight
             k = ot['t']
             if k == 'return':
                 tt = {'t': 'goto', 'to': ret_to}
             elif k == 'goto':
                 tt['to'] = B0 + ot['to']
             elif k == 'drop':
-                if ot['pl']['l'] == 1:
+                if ot['pl']['l'] == 1 and not plain:
                     tt = {'t': 'goto', 'to': B0 + ot['to']}
                 else:
                     tt['pl'] = map_place(ot['pl'])
@@ -371,9 +376,10 @@ class Rewriter:
         self.new.extend(newblocks)
         # debug names of the closure's own locals (never override the caller's)
         for n, pl in cbody.get('names', {}).items():
-            if not pl.get('p') and pl['l'] != 1 and n not in body['names']:
+            if not pl.get('p') and (plain or pl['l'] != 1) and n not in body['names']:
                 body['names'][n] = {'l': L0 + pl['l']}
-        body.setdefault('inlined_iter_closures', []).append(ckey)
+        if not plain:
+            body.setdefault('inlined_iter_closures', []).append(ckey)
         return B0, L0, cbody
 
     # ------------------------------------------------------------------------------------------------------------------
@@ -670,6 +676,15 @@ class Rewriter:
         dty = body['locals'][t['dest']['l']]
         if not dty.startswith('core::option::Option<'):
             raise Bail('next result type')
+        # a statically known source (`for x in [a, b]`, `once(a).chain(opt)`, `[Some(a), b].into_iter().flatten()`): unroll the loop
+        tmp = []
+        found, cur = self.source_def(root, tmp)
+        if found:
+            tmp2 = []
+            elems = self.static_source(cur, tmp2)
+            if elems is not None:
+                self.unroll_static_for(bi, elems, tmp + tmp2)
+                return
         elem_ty = dty[len('core::option::Option<'):-1]
         neutralise = []
         start, x, structured = self.gen_pull(root, elem_ty, 'SOME', 'NONE', at, neutralise)
@@ -686,6 +701,95 @@ class Rewriter:
         for cb in neutralise:
             blocks[cb]['term'] = {'t': 'goto', 'to': blocks[cb]['term']['to']}
         blocks[bi]['term'] = {'t': 'goto', 'to': self.names[start]}
+
+    def unroll_static_for(self, bi, elems, neutralise):
+        """the `next()` in the header of a loop over a statically known list of elements: the loop body once per element, in order (an
+        Option element only when it is Some), then the exit path of the loop"""
+        body = self.body
+        blocks = body['blocks']
+        t = blocks[bi]['term']
+        at = t.get('at')
+        T0, dest = t['to'], t['dest']
+
+        def succs(b):
+            tt = b['term']
+            if tt['t'] == 'switch':
+                return [x for _, x in tt['arms']] + [tt['otherwise']]
+            if isinstance(tt.get('to'), int) and tt['to'] >= 0:
+                return [tt['to']]
+            return []
+        fwd, st = set(), [T0]
+        while st:
+            x = st.pop()
+            if x in fwd or x == bi or blocks[x]['cleanup']:
+                continue
+            fwd.add(x)
+            st.extend(succs(blocks[x]))
+        pred = {}
+        for x in fwd | {bi}:
+            for s_ in succs(blocks[x]):
+                pred.setdefault(s_, []).append(x)
+        back, st = set(), [bi]
+        while st:
+            x = st.pop()
+            for p_ in pred.get(x, []):
+                if p_ not in back and p_ != bi:
+                    back.add(p_)
+                    st.append(p_)
+        loop = sorted(fwd & back)
+        N = len(elems)
+        if T0 not in loop or N > 8 or len(loop) * (N + 1) > 600:
+            raise Bail('loop shape / size')
+        keep = set(o_['pl']['l'] for _, o_ in elems if o_['k'] in ('copy', 'move'))
+        for b_ in blocks:
+            b_['st'] = [s_ for s_ in b_['st'] if not (s_['s'] == 'dead' and s_['l'] in keep)]
+        A = lambda pl, rv: {'s': 'assign', 'pl': pl, 'rv': rv, 'at': at}
+
+        def opt(variant, vidx, ops):
+            return {'r': 'agg', 'kind': 'adt', 'adt': 'core::option::Option', 'variant': variant, 'vidx': vidx,
+                    'fields': ['0'] if ops else [], 'is_enum': True, 'ops': ops}
+        ph = lambda: self.add_block(None, [], {'t': 'unreachable'})
+        maps = [{b: ph() for b in loop} for _ in range(N + 1)]
+        heads = [ph() for _ in range(N + 1)]
+        unr = ph()
+        for k in range(N + 1):
+            mk = maps[k]
+
+            def rm(x, k=k, mk=mk):
+                if x == bi:
+                    return heads[k + 1] if k < N else unr
+                return mk.get(x, x)
+            for b in loop:
+                nb = copy.deepcopy(blocks[b])
+                tt = nb['term']
+                if isinstance(tt.get('to'), int) and tt['to'] >= 0:
+                    tt['to'] = rm(tt['to'])
+                if tt['t'] == 'switch':
+                    tt['arms'] = [[v, rm(x)] for v, x in tt['arms']]
+                    tt['otherwise'] = rm(tt['otherwise'])
+                blocks[mk[b]] = nb
+            into = mk[T0]
+            if k == N:
+                blocks[heads[k]] = {'cleanup': False, 'st': [A(dest, opt('None', 0, []))], 'term': {'t': 'goto', 'to': into}}
+                continue
+            ek, o = elems[k]
+            if ek == 'val':
+                blocks[heads[k]] = {'cleanup': False, 'st': [A(dest, opt('Some', 1, [o]))], 'term': {'t': 'goto', 'to': into}}
+            else:
+                if o['k'] not in ('copy', 'move'):
+                    raise Bail('constant Option source')
+                opt_ty = body['locals'][o['pl']['l']] if not o['pl'].get('p') else 'core::option::Option<?>'
+                d_k = self.newlocal('isize')
+                yes = ph()
+                src = {'k': 'move', 'pl': {'l': o['pl']['l'], 'p': list(o['pl'].get('p', [])) + [{'v': 1, 'n': 'Some'}, {'f': 0, 'n': '0'}]}}
+                blocks[heads[k]] = {'cleanup': False, 'st': [A({'l': d_k}, {'r': 'discr', 'pl': o['pl'], 'ty': opt_ty})],
+                                    'term': {'t': 'switch', 'd': {'k': 'move', 'pl': {'l': d_k}}, 'dty': 'isize', 'arms': [[0, heads[k + 1]], [1, yes]],
+                                             'otherwise': unr, 'at': at}}
+                blocks[yes] = {'cleanup': False, 'st': [A(dest, opt('Some', 1, [src]))], 'term': {'t': 'goto', 'to': into}}
+        for cb in neutralise:
+            blocks[cb]['term'] = {'t': 'goto', 'to': blocks[cb]['term']['to']}
+        blocks[bi]['term'] = {'t': 'goto', 'to': heads[0]}
+        self.new = []
 
     def closure_of(self, t):
         ck = [k for k in t.get('closures', []) if k in self.insts]
@@ -719,12 +823,44 @@ class Rewriter:
             return [('opt', ct['args'][0])]
         if re.search(r'(<\[.*; \d+\] as core::iter::IntoIterator>|impl core::iter::IntoIterator for \[.*; \d+\]>)::into_iter$', cal) and len(ct['args']) == 1:
             # `[a, b, c].into_iter()`: the array literal's elements, in order
-            al = op_local(ct['args'][0])
+            a0 = ct['args'][0]
+            if a0['k'] == 'const' and a0.get('cbody') in self.insts:
+                # a constant table (`for step in STEPS`): its elements by position, read from a copy of the constant
+                cb_ = self.insts[a0['cbody']]
+                n_el = None
+                for blk_ in cb_['blocks']:
+                    for s_ in blk_['st']:
+                        if s_['s'] == 'assign' and s_['pl']['l'] == 0 and not s_['pl'].get('p') and s_['rv']['r'] == 'agg' and s_['rv'].get('kind') == 'array':
+                            n_el = len(s_['rv']['ops'])
+                if n_el is None:
+                    return None
+                tl = self.newlocal(a0.get('ty', '[?]'))
+                body['blocks'][cb]['st'] = body['blocks'][cb]['st'] + [{'s': 'assign', 'pl': {'l': tl}, 'rv': {'r': 'use', 'o': a0}, 'at': ct.get('at')}]
+                neutralise.append(cb)
+                return [('val', {'k': 'copy', 'pl': {'l': tl, 'p': [{'ci': k_}]}}) for k_ in range(n_el)]
+            al = op_local(a0)
             arv = _single_assign(body, al) if al is not None else None
             if arv is None or arv['r'] != 'agg' or arv.get('kind') != 'array':
                 return None
             neutralise.append(cb)
             return [('val', o) for o in arv['ops']]
+        if re.search(r'core::slice::<impl \[.*\]>::iter$', cal) and len(ct['args']) == 1:
+            # `slice.iter()` where the slice is (a reference to) an array literal built in this body: its elements by position
+            l = op_local(ct['args'][0])
+            for _ in range(12):
+                rv = _single_assign(body, l) if l is not None else None
+                if rv is None:
+                    return None
+                if rv['r'] == 'agg' and rv.get('kind') == 'array':
+                    neutralise.append(cb)
+                    return [('val', {'k': 'copy', 'pl': {'l': l, 'p': [{'ci': k_}]}}) for k_ in range(len(rv['ops']))]
+                if rv['r'] == 'ref' and (rv['pl'].get('p') or []) in ([], ['*']):
+                    l = rv['pl']['l']
+                elif rv['r'] in ('use', 'cast') and op_local(rv.get('o') or rv.get('a')) is not None:
+                    l = op_local(rv.get('o') or rv.get('a'))
+                else:
+                    return None
+            return None
         if ' as core::iter::Iterator>::flatten' in cal and len(ct['args']) == 1 and 'IntoIter<core::option::Option<' in cal:
             # `.flatten()` over a static list of Options: each element only when it is Some
             a = op_local(ct['args'][0])
@@ -808,6 +944,33 @@ class Rewriter:
             blocks[cb]['term'] = {'t': 'goto', 'to': blocks[cb]['term']['to']}
         blocks[bi]['st'] = blocks[bi]['st'] + self.pre
         blocks[bi]['term'] = {'t': 'goto', 'to': self.names['EL0']}
+
+    def rewrite_collect(self, bi):
+        """`iter.collect::<Result<(), E>>()`: pull until the first Err (which is the result), Ok(()) when the iterator is exhausted"""
+        body = self.body
+        blocks = body['blocks']
+        t = blocks[bi]['term']
+        at = t.get('at')
+        m = COLLECT_UNIT.match(t['callee'])
+        a0 = op_local(t['args'][0]) if len(t['args']) == 1 else None
+        if a0 is None or t['to'] < 0 or t['dest'].get('p'):
+            raise Bail('collect shape')
+        elem_ty = m.group(2)
+        neutralise = []
+        start, x, _ = self.gen_pull(a0, elem_ty, 'GOT', 'NONE', at, neutralise)
+        A = lambda pl, rv: {'s': 'assign', 'pl': pl, 'rv': rv, 'at': at}
+        mv = lambda l: {'k': 'move', 'pl': {'l': l}}
+        d = self.newlocal('isize')
+        self.add_block('GOT', [A({'l': d}, {'r': 'discr', 'pl': {'l': x}, 'ty': elem_ty})],
+                       {'t': 'switch', 'd': mv(d), 'dty': 'isize', 'arms': [[0, start], [1, 'BRK']], 'otherwise': 'UNR', 'at': at})
+        self.add_block('BRK', [A(t['dest'], {'r': 'use', 'o': mv(x)})], {'t': 'goto', 'to': t['to']})
+        self.add_block('NONE', [A(t['dest'], {'r': 'agg', 'kind': 'adt', 'adt': 'core::result::Result', 'variant': 'Ok', 'vidx': 0, 'fields': ['0'], 'is_enum': True,
+                                              'ops': [{'k': 'const', 'ty': '()', 'v': '()'}]})], {'t': 'goto', 'to': t['to']})
+        self.add_block('UNR', [], {'t': 'unreachable'})
+        self.resolve()
+        for cb in neutralise:
+            blocks[cb]['term'] = {'t': 'goto', 'to': blocks[cb]['term']['to']}
+        blocks[bi]['term'] = {'t': 'goto', 'to': self.names[start]}
 
     def rewrite(self, bi):
         insts, body = self.insts, self.body
@@ -1029,6 +1192,48 @@ def rewrite_direct_call(insts, body, bi, done):
     body['blocks'][bi]['term'] = {'t': 'goto', 'to': B0}
 
 
+def _higher_order_target(insts, body, t):
+    """a walked workspace function called with a closure built in this body, or with (a reference to) an array literal built in this
+    body: its loops / closure calls can only be followed with the caller's values in sight, so its body is spliced into the caller"""
+    if t['t'] != 'call' or t.get('leaf') or t.get('closure_call') or t['callee'] not in insts or t['to'] < 0 or t['dest'].get('p'):
+        return False
+    cb = insts[t['callee']]
+    if cb.get('is_closure') or cb is body or (t.get('self_adt') or '').endswith('Client'):
+        return False
+    if cb.get('argc', 0) != len(t['args']) or len(cb['blocks']) > 120:
+        return False
+    for a in t['args']:
+        l = op_local(a)
+        if l is None:
+            continue
+        for _ in range(8):      # through `&x`, `&*r`, unsizing casts and moves
+            rv = _single_assign(body, l)
+            if rv is None:
+                break
+            if rv['r'] == 'agg' and rv.get('kind') in ('closure', 'array'):
+                return True
+            if rv['r'] == 'ref' and (rv['pl'].get('p') or []) in ([], ['*']):
+                l = rv['pl']['l']
+            elif rv['r'] in ('use', 'cast') and op_local(rv.get('o') or rv.get('a')) is not None:
+                l = op_local(rv.get('o') or rv.get('a'))
+            else:
+                break
+    return False
+
+
+def rewrite_plain_call(insts, body, bi, done):
+    t = body['blocks'][bi]['term']
+    at = t.get('at')
+    rw = Rewriter(insts, body, done)
+    B0, L0, cbody = rw.splice(t['callee'], None, 'FRET', at)
+    st = [{'s': 'assign', 'pl': {'l': L0 + 1 + i}, 'rv': {'r': 'use', 'o': a}, 'at': at} for i, a in enumerate(t['args'])]
+    rw.add_block('FRET', [{'s': 'assign', 'pl': t['dest'], 'rv': {'r': 'use', 'o': {'k': 'move', 'pl': {'l': L0}}}, 'at': at}], {'t': 'goto', 'to': t['to']})
+    rw.resolve()
+    body['blocks'][bi]['st'] = body['blocks'][bi]['st'] + st
+    body['blocks'][bi]['term'] = {'t': 'goto', 'to': B0}
+    body.setdefault('inlined_fns', []).append(t['callee'])
+
+
 def inline_body(insts, body, done):
     key = body['key']
     if key in done:
@@ -1045,13 +1250,19 @@ def inline_body(insts, body, done):
                 continue
             direct = _direct_call_target(insts, body, t) is not None
             nxt = bool(t.get('leaf') and NEXT_ADAPTOR.match(t['callee']))
-            if not direct and not nxt and not (t.get('leaf') and CONSUMER.match(t['callee'])):
+            plain = (not direct) and _higher_order_target(insts, body, t)
+            coll = bool(t.get('leaf') and COLLECT_UNIT.match(t['callee']))
+            if not direct and not nxt and not plain and not coll and not (t.get('leaf') and CONSUMER.match(t['callee'])):
                 continue
             snap = (len(body['locals']), len(body['blocks']), len(body['promoted']), copy.deepcopy(body['blocks']), dict(body['names']),
                     list(body.get('inlined_iter_closures', [])), copy.deepcopy(body.get('_closure_caps', {})))
             try:
                 if direct:
                     rewrite_direct_call(insts, body, bi, done)
+                elif plain:
+                    rewrite_plain_call(insts, body, bi, done)
+                elif coll:
+                    Rewriter(insts, body, done).rewrite_collect(bi)
                 elif nxt:
                     Rewriter(insts, body, done).rewrite_next(bi)
                 else:
@@ -1069,7 +1280,25 @@ def inline_body(insts, body, done):
                 body['blocks'][bi]['term']['_noinline'] = '%s: %s' % (type(e).__name__, e)
 
 
+def ctor_calls_to_aggregates(body):
+    """`Err(e)` / `Some(x)` / `Wrapper(v)` written as a call of the constructor FUNCTION (`opt.map_or(Ok(()), Err)`, `.map(Some)`) is the
+    same value as the aggregate expression: rewrite the call into the assignment, so that terms and the abstract store see the variant"""
+    for b in body['blocks']:
+        t = b['term']
+        if t['t'] == 'call' and t.get('ctor') and t['to'] >= 0 and len(t['args']) == len(t['ctor']['fields']):
+            c = t['ctor']
+            b['st'] = b['st'] + [{'s': 'assign', 'pl': t['dest'], 'at': t.get('at'),
+                                  'rv': {'r': 'agg', 'kind': 'adt', 'adt': c['adt'], 'variant': c['variant'], 'vidx': c['vidx'], 'fields': c['fields'],
+                                         'is_enum': c['is_enum'], 'ops': t['args']}}]
+            b['term'] = {'t': 'goto', 'to': t['to']}
+    for pb in body.get('promoted', []):
+        if 'blocks' in pb:
+            ctor_calls_to_aggregates(pb)
+
+
 def inline_all(insts):
     done = set()
+    for body in insts.values():
+        ctor_calls_to_aggregates(body)
     for body in list(insts.values()):
         inline_body(insts, body, done)
